@@ -1211,17 +1211,22 @@ func runC11(c *lib.Ctx) {
 	}
 
 	// --- random programs: all orders when few, sampled orders otherwise
+	// lib.NewRng(seed) starts the one splitmix stream at offset `seed`: the streams of seeds n
+	// and n+1 are shifts of each other and fall into step as soon as two runs have consumed a
+	// different number of draws. The generator therefore uses a stream whose offset is itself
+	// drawn from c.Rng, so that different seeds give unrelated runs.
+	rng := lib.NewRng(c.Rng.U64() ^ 0xC11C11C11)
 	nProgs := c.Scale(450, 12000)
 	modes := []string{"uniform", "flavors-first", "textual", "uniform"}
 	for i := 0; i < nProgs; i++ {
-		p := c11RandomProg(c.Rng)
+		p := c11RandomProg(rng)
 		mid := func(defined []int) []c11Tok {
 			var out []c11Tok
-			if len(defined) == 0 || !c.Rng.Chance(35) {
+			if len(defined) == 0 || !rng.Chance(35) {
 				return nil
 			}
-			f := defined[c.Rng.Intn(len(defined))]
-			m := p.msgs[c.Rng.Intn(len(p.msgs))]
+			f := defined[rng.Intn(len(defined))]
+			m := p.msgs[rng.Intn(len(p.msgs))]
 			out = append(out, c11Tok{K: 'S', Fl: f, Msg: m})
 			if m >= 100 && m < 200 {
 				out = append(out, c11Tok{K: 'V', Fl: f, Slot: m - 100})
@@ -1245,7 +1250,7 @@ func runC11(c *lib.Ctx) {
 		for oi := 0; oi < nOrders; oi++ {
 			mode := modes[(oi+i)%len(modes)]
 			c.Ev.Hist("order_mode", mode)
-			cases = append(cases, c11Case{toks: p.tokens(p.randomOrder(c.Rng, mode), mid), label: fmt.Sprintf("random%d/%s%d", i, mode, oi)})
+			cases = append(cases, c11Case{toks: p.tokens(p.randomOrder(rng, mode), mid), label: fmt.Sprintf("random%d/%s%d", i, mode, oi)})
 		}
 	}
 
